@@ -195,29 +195,32 @@ def check(program: Program, run: Run) -> None:
             if not found[k]:
                 raise AnalysisError(f"anchor vanished: no defining slot over {k} found in {bn}.get_sql skeleton")
 
-    # ---- R4 references
+    # ---- R4 references (judged inside the statement skeleton, i.e. with the context get_sql really passes)
     refs = [("QueryBuilder", "_group_sql", "_groupbys"), ("QueryBuilder", "_orderby_sql", "_orderbys"), ("_SetOperation", "_orderby_sql", "_orderbys")]
     for cn, m, attr in refs:
         c = program.cls(cn)
-        sk, _ = render(program, c, method=m)
+        sk, _ = render(program, c)
         alias_holes = 0
+        fq = f"{cn}.{m}"
         for part, conds, in_rep in walk_parts(sk):
-            if isinstance(part, Hole) and "alias" in show(part.value) and attr in show(part.value) or (
-                    isinstance(part, Hole) and show(part.value).endswith(".alias") and attr in show(part.value)):
+            src = getattr(part, "src", ())
+            if not src or src[0] != fq:
+                continue
+            if isinstance(part, Hole) and show(part.value).endswith(".alias") and attr in show(part.value):
                 alias_holes += 1
                 guarded = cond_mentions(conds, lambda x: isinstance(x, Sym) and x.kind == "op" and x.args[0] == "in" and "_selects" in show(x.args[2]))
-                run.ob("C12/R4 alias reference guarded by membership in the select list's aliases", f"{cn}.{m}", guarded,
+                run.ob("C12/R4 alias reference guarded by membership in the select list's aliases", fq, guarded,
                        detail="; ".join(show(x) for x in conds)[:200])
                 if not guarded:
-                    run.finding(f"C12/reference-unguarded:{cn}.{m}", f"{cn}.{m} writes an alias reference that is not guarded by membership in the select list's aliases", rule="R4")
+                    run.finding(f"C12/reference-unguarded:{fq}", f"{fq} writes an alias reference that is not guarded by membership in the select list's aliases", rule="R4")
             if isinstance(part, SlotP) and isinstance(part.ctx, CtxV) and part.method == "get_sql":
                 rp = recv_path(part.recv)
                 good = part.ctx.fields["with_alias"] == Const(False)
-                run.ob("C12/R4 fallback expression rendered with alias printing off", f"{cn}.{m}:{rp}", good,
+                run.ob("C12/R4 fallback expression rendered with alias printing off", f"{fq}:{rp}", good,
                        detail=f"with_alias={show(part.ctx.fields['with_alias'])}")
                 if not good:
-                    run.finding(f"C12/reference-alias:{cn}.{m}:{rp}",
-                                f"{cn}.{m} renders `{rp}` with the incoming with_alias flag: inside an aliased subquery the GROUP BY/ORDER BY expression prints its alias",
+                    run.finding(f"C12/reference-alias:{fq}:{rp}",
+                                f"{fq} renders `{rp}` with the incoming with_alias flag: inside an aliased subquery the GROUP BY/ORDER BY expression prints its alias",
                                 where=f"{part.src[2]}:{part.src[1]}", rule="R4")
         if not alias_holes:
-            raise AnalysisError(f"anchor vanished: no alias reference found in {cn}.{m}")
+            raise AnalysisError(f"anchor vanished: no alias reference found in {fq}")
